@@ -53,4 +53,9 @@ theorem Piece_score_eq : ∀ (endgame : Bool) (pc : Gen.Fns.Piece) (p : Gen.Fns.
   cases endgame <;> cases t <;> cases o <;> decide +kernel
 #print axioms Piece_score_eq
 
+/-- `ENDGAME_THRESHOLD` (the constant expression `1500 + 20000` in `scores.rs`, evaluated in `u32`) is the
+value `tools/extract.py` reads as data -/
+theorem ENDGAME_THRESHOLD_eq : Gen.Fns.ENDGAME_THRESHOLD.toNat = Gen.endgameThreshold := by decide +kernel
+#print axioms ENDGAME_THRESHOLD_eq
+
 end Chess.FnsEquiv
